@@ -16,6 +16,67 @@ def ordered(x):
     return json.JSONDecoder(object_pairs_hook=lambda kv: ("o", kv)).decode(x) if isinstance(x, str) else x
 
 
+def judge(r, m):
+    """one executed case `r` (with its plain twin) against C13 itself and against the defer model's line `m`;
+    returns None for cases that never executed, else (tags, why, spec_bad, model json)"""
+    if r.get("gateErrors") or not r["payloads"]:
+        return None
+    P = r["payloads"]
+    tags = set()
+    if len(P) > 1:
+        tags.add("incremental")
+    if len(P) > 3:
+        tags.add("many-groups")
+    if any(p["data"] is None for p in P[1:]):
+        tags.add("failed-group")
+    if "@defer(if:" in r["query"]:
+        tags.add("defer-if")
+    if r["query"].startswith("mutation") and "@defer" in r["query"]:
+        tags.add("defer-in-mutation")
+    if any(p.get("path", "").count("/") >= 2 for p in P[1:]):
+        tags.add("group-in-list-or-nested")
+    why = []
+    if r.get("hung"):
+        why.append("hung")
+    if r.get("crash"):
+        why.append("crash")
+    # (1) the property itself on the implementation's payloads, in arrival order
+    spec_bad = []
+    if r.get("plain") and not r["plain"].get("gateErrors"):
+        spec_bad = defermerge.check(P, r["plain"]["payloads"])
+    # (2) correspondence with the Lean model (payload set)
+    mj = None
+    if m is not None:
+        if not m.startswith("{"):
+            why.append("model:" + m[:40])
+        else:
+            mj = json.loads(m)
+            if json.loads(mj["initial"]["data"]) != P[0]["data"]:
+                why.append("initial-data")
+            if mj["initial"]["errors"] != sorted(e["path"] + " :: " + e["message"] for e in P[0]["errors"]):
+                why.append("initial-errors")
+            ig = {(p.get("path", ""), p.get("label", "")): p for p in P[1:]}
+            mg = {(g["path"], g["label"]): g for g in mj["groups"]}
+            if set(ig) != set(mg) or len(ig) != len(P) - 1:
+                why.append("group-set")
+            else:
+                for k in ig:
+                    if json.loads(mg[k]["data"]) != ig[k]["data"]:
+                        why.append("group-data")
+                    if mg[k]["errors"] != sorted(e["path"] + " :: " + e["message"] for e in ig[k]["errors"]):
+                        why.append("group-errors")
+            if mj["invs"] != sorted(i["path"] + " " + i["hook"] for i in r["log"]):
+                why.append("invocations")
+            if "recovers" in mj and mj["recovers"] != r["recovers"]:
+                why.append("recovers")
+            if mj["unlogged"]:
+                why.append("model-invokes-unlogged")
+    return tags, why, spec_bad, mj
+
+
+FAILING = ("initial-data", "group-data", "group-set", "group-errors", "initial-errors", "invocations", "recovers", "hung", "crash")
+
+
 def run(ctx):
     if getattr(ctx, "replay", None):
         from checks import execreplay
@@ -95,60 +156,15 @@ def run(ctx):
         ok = 0
         for (l, r), m in zip(lines, model):
             total += 1
-            if r.get("gateErrors") or not r["payloads"]:
+            j = judge(r, m)
+            if j is None:
                 continue
+            tags, why, spec_bad, mj = j
             P = r["payloads"]
-            tags = set()
-            if len(P) > 1:
-                tags.add("incremental")
-            if len(P) > 3:
-                tags.add("many-groups")
-            if any(p["data"] is None for p in P[1:]):
-                tags.add("failed-group")
-            if "@defer(if:" in r["query"]:
-                tags.add("defer-if")
-            if r["query"].startswith("mutation") and "@defer" in r["query"]:
-                tags.add("defer-in-mutation")
-            if any(p.get("path", "").count("/") >= 2 for p in P[1:]):
-                tags.add("group-in-list-or-nested")
             for t in tags:
                 dist[t] += 1
             if tags:
                 nontriv.add(r["query"] + json.dumps(r.get("plan"), sort_keys=True)[:200])
-            why = []
-            if r.get("hung"):
-                why.append("hung")
-            if r.get("crash"):
-                why.append("crash")
-            # (1) the property itself on the implementation's payloads, in arrival order
-            spec_bad = []
-            if r.get("plain") and not r["plain"].get("gateErrors"):
-                spec_bad = defermerge.check(P, r["plain"]["payloads"])
-            # (2) correspondence with the Lean model (payload set)
-            mj = None
-            if m is not None:
-                if not m.startswith("{"):
-                    why.append("model:" + m[:40])
-                else:
-                    mj = json.loads(m)
-                    if json.loads(mj["initial"]["data"]) != P[0]["data"]:
-                        why.append("initial-data")
-                    if mj["initial"]["errors"] != sorted(e["path"] + " :: " + e["message"] for e in P[0]["errors"]):
-                        why.append("initial-errors")
-                    ig = {(p.get("path", ""), p.get("label", "")): p for p in P[1:]}
-                    mg = {(g["path"], g["label"]): g for g in mj["groups"]}
-                    if set(ig) != set(mg) or len(ig) != len(P) - 1:
-                        why.append("group-set")
-                    else:
-                        for k in ig:
-                            if json.loads(mg[k]["data"]) != ig[k]["data"]:
-                                why.append("group-data")
-                            if mg[k]["errors"] != sorted(e["path"] + " :: " + e["message"] for e in ig[k]["errors"]):
-                                why.append("group-errors")
-                    if mj["invs"] != sorted(i["path"] + " " + i["hook"] for i in r["log"]):
-                        why.append("invocations")
-                    if mj["unlogged"]:
-                        why.append("model-invokes-unlogged")
             if why or spec_bad:
                 divs.append((cfg, r, mj, sorted(set(why)), spec_bad))
             else:
@@ -168,7 +184,7 @@ def run(ctx):
                "query": r["query"], "variables": r.get("variables"), "plan": r.get("plan"),
                "impl": r["payloads"], "plain": (r.get("plain") or {}).get("payloads"), "model": mj, "shape": shape,
                "replay": "echo '<case json>' | <generated server %s> -mode run   (and the same with every @defer removed)" % cfg}
-        ctx.violation(rep, no_failing_input=not (spec_bad or any(w in ("initial-data", "group-data", "group-set", "group-errors", "initial-errors", "invocations", "hung", "crash") for w in why)))
+        ctx.violation(rep, no_failing_input=not (spec_bad or any(w in FAILING for w in why)))
     if not proved and not ctx.violations:
         ctx.violation({"kind": "proof", "failing": ctx.proof_failure}, no_failing_input=True)
     ctx.cov.update({
